@@ -4,7 +4,7 @@ func init() {
 	props["C18"] = &propDef{
 		info: PropInfo{
 			Bounds: []string{
-				"structure only, with the third-party transform as uninterpreted functions: lists of 0..3 points with arbitrary real coordinates (points accepted by NewPoint), EPSG codes 3857, 900913, 4978, 3035 and 31287 (known) and 0, 1, 3858 (unknown)",
+				"structure only, with the third-party transform as uninterpreted functions: lists of 0..3 points with arbitrary real longitude and altitude and a latitude chosen per point from {12.5, -33.25}, EPSG codes 3857, 900913, 4978, 3035 and 31287 (known) and 0, 1, 3858 (unknown)",
 				"decided: list length and order, that X and Y are the first two results of transform(4326 -> code) applied to (lon, lat, alt) in that argument order (and code -> 4326 for the inverse), that the altitude is the input altitude and not the transform's third result, that any transform error or unknown code is a conversion error",
 			},
 			Outside: []string{"that EPSG:3857 is spherical Mercator on radius 6378137 m and that the round trip is within 2e-10 degrees (third-party transcendental code: wgs84)", "lists longer than 3", "EPSG codes other than the listed ones"},
@@ -34,7 +34,7 @@ func init() {
 		tv: func(tier string, seed int64) []*TV {
 			// concrete vectors only for unknown codes: the interpreter has no concrete model of the third-party transform
 			return []*TV{
-				{Harness: "VerifC18Forward", PkgDir: "shape", Unwind: 40, Case: cs("n", 1, "code", 3858, "known", 0), Inputs: map[string]string{"lon0": f2s(139.75), "lat0": f2s(35.68), "alt0": f2s(10)}},
+				{Harness: "VerifC18Forward", PkgDir: "shape", Unwind: 40, Case: cs("n", 1, "code", 3858, "known", 0), Inputs: map[string]string{"lon0": f2s(139.75), "latsel0": "1", "alt0": f2s(10)}},
 				{Harness: "VerifC18Inverse", PkgDir: "shape", Unwind: 40, Case: cs("n", 2, "code", 0, "known", 0), Inputs: map[string]string{"x0": f2s(15556463.0), "y0": f2s(4257424.0), "alt0": f2s(10), "x1": f2s(1), "y1": f2s(2), "alt1": f2s(3)}},
 			}
 		},
